@@ -151,6 +151,40 @@ theorem monotone {s s' : State} {op : Op} (hl : s.frames ≠ [] → s.locals.isS
         rw [List.reverse_cons, List.getElem?_append_left hlt]; exact hi'
       exact stackLe_get_rev hle i t t' hi hi'' n v hv
 
+/-- the scope with index `i` (counted from the global table) stays open during `ops` -/
+def alive (i : Nat) (s : State) : List Op → Prop
+  | [] => True
+  | op :: ops =>
+    match step s op with
+    | .ok s1 => i < (tables s1).length ∧ alive i s1 ops
+    | .error _ => True
+
+/-- C14.reachable  In every state reachable from `Context::new()`, `locals` is `Some` exactly while an `assemble` call is
+active, and each `PathFrame` saved a table exactly when it has an outer frame — the side conditions of
+`swap_balanced_exit`, `step_stack` and `monotone` hold in every reachable state. -/
+theorem reachable_open {ops : List Op} {s : State} (h : run init ops = .ok s) : Open s :=
+  open_run ops open_init h
+
+/-- C14.monotone (runs)  From any reachable state, along any op sequence during which a scope stays open, every valued
+entry of that scope's table keeps its value: a constant's value never changes once defined. -/
+theorem monotone_run (i : Nat) : ∀ (ops : List Op) {s s' : State}, Open s → run s ops = .ok s' → alive i s ops →
+    ∀ (t t' : Table), (tables s).reverse[i]? = some t → (tables s').reverse[i]? = some t' →
+    ∀ (n : Bytes) (v : Int), t.find n = some (some v) → t'.find n = some (some v)
+  | [], s, s', _, hr, _, t, t', ht, ht', n, v, hv => by
+    simp only [run] at hr
+    cases hr
+    rw [ht] at ht'; cases ht'; exact hv
+  | op :: ops, s, s', ho, hr, ha, t, t', ht, ht', n, v, hv => by
+    simp only [run] at hr
+    split at hr
+    · cases hr
+    · rename_i s1 hs
+      simp only [alive, hs] at ha
+      have hlen : i < (tables s1).reverse.length := by simpa using ha.1
+      have ht1 : (tables s1).reverse[i]? = some ((tables s1).reverse[i]'hlen) := List.getElem?_eq_getElem hlen
+      have hv1 := monotone (fun hf => ho.locals.2 hf) hs i t _ ht ht1 n v hv
+      exact monotone_run i ops (open_step ho hs) hr ha.2 _ t' ht1 ht' n v hv1
+
 /-! ## dup_reserved — the five collision classes are diagnosed and leave every table unchanged -/
 
 /-- the state after a fatal diagnostic of statement `tag`: the log grows by one entry, `do_assemble` stops, and
